@@ -27,3 +27,5 @@ pub open spec fn dd_inv(v: Seq<MidLinearConstraint>, o: Seq<MidLinearConstraint>
     &&& forall|i: int, j: int| 0 <= i < j < n && nm(v, i).len() > 0 ==> #[trigger] nm(v, i) != #[trigger] nm(v, j)
     &&& forall|j: int| 0 <= j < n && first_use(row_names(o), j) ==> #[trigger] nm(v, j) == nm(o, j)
 }
+// k is the name of one of the first `upto` rows
+pub open spec fn named_before(v: Seq<MidLinearConstraint>, upto: int, k: Seq<char>) -> bool { exists|j: int| 0 <= j < upto && #[trigger] nm(v, j) == k }
